@@ -341,6 +341,9 @@ impl<T> Sender<T> {
         lock(&self.ch).cap
     }
     pub fn is_full(&self) -> bool {
+        // observing shared channel state is a scheduling point too: code that spins on it must
+        // hand control back to the scheduler
+        sched_point();
         let g = lock(&self.ch);
         match g.cap {
             None => false,
@@ -351,7 +354,14 @@ impl<T> Sender<T> {
         Arc::ptr_eq(&self.ch, &other.ch)
     }
     pub fn len(&self) -> usize {
-        lock(&self.ch).q.len()
+        sched_point();
+        let g = lock(&self.ch);
+        // like crossbeam: a zero-capacity channel is always empty (and always full)
+        if g.cap == Some(0) {
+            0
+        } else {
+            g.q.len()
+        }
     }
     pub fn is_empty(&self) -> bool {
         self.len() == 0
@@ -484,7 +494,14 @@ impl<T> Receiver<T> {
         TryIter { r: self }
     }
     pub fn len(&self) -> usize {
-        lock(&self.ch).q.len()
+        sched_point();
+        let g = lock(&self.ch);
+        // like crossbeam: a zero-capacity channel is always empty (and always full)
+        if g.cap == Some(0) {
+            0
+        } else {
+            g.q.len()
+        }
     }
     pub fn is_empty(&self) -> bool {
         self.len() == 0
